@@ -169,25 +169,45 @@ func (c *compiler) evalAssignExpression(node *ast.AssignExpression) (interface{}
 }
 
 func (c *compiler) evalUserFunction(node *userFunction, args []ast.Expression) (interface{}, error) {
-	octx := c.ctx
-	defer func() { c.ctx = octx }()
-
 	if len(args) < len(node.Parameters) {
 		return nil, fmt.Errorf("too few arguments (%d for %d)", len(args), len(node.Parameters))
 	}
 
-	c.ctx = c.ctx.New()
-	for i, p := range node.Parameters {
-		a := args[i]
-		v, err := c.evalExpression(a)
+	// the arguments are evaluated in the caller's scope, before any
+	// parameter is bound
+	vals := make([]interface{}, len(node.Parameters))
+	for i := range node.Parameters {
+		v, err := c.evalExpression(args[i])
 		if err != nil {
 			return nil, err
 		}
-
-		c.ctx.Set(p.Value, v)
+		vals[i] = v
 	}
 
-	return c.evalBlockStatement(node.Block)
+	octx := c.ctx
+	defer func() { c.ctx = octx }()
+
+	c.ctx = c.ctx.New()
+	for i, p := range node.Parameters {
+		c.ctx.Set(p.Value, vals[i])
+	}
+
+	res, err := c.evalBlockStatement(node.Block)
+	if err != nil {
+		return nil, err
+	}
+
+	// the value of the call is the value of the first return reached, not
+	// the wrapper that carried it out of the nested blocks
+	for {
+		ro, ok := res.(returnObject)
+		if !ok || len(ro.Value) == 0 {
+			break
+		}
+		res = ro.Value[len(ro.Value)-1]
+	}
+
+	return res, nil
 }
 
 func (c *compiler) evalFunctionLiteral(node *ast.FunctionLiteral) (interface{}, error) {
